@@ -14,5 +14,5 @@ CONSTANTS
   ConfSets = {{1}, {1, 2}, {2, 3}, {1, 2, 3}}
   OtherSets = {{1}}
   RefKind = "att"
-INVARIANTS TypeOK FlagSound TimeoutSignalHeard OfferedInFull SuccessIff ReturnsByTimeout Independence ClassifiedByNow
+INVARIANTS TypeOK FlagSound TimeoutSignalHeard OfferedInFull SuccessIff ReturnsByTimeout Independence DeliveredToEach ClassifiedByNow
 CHECK_DEADLOCK FALSE
